@@ -368,6 +368,9 @@ pub enum Act {
     SlaveTransient(u8),
     /// the application calls enter_operate() again while the request is outstanding
     EnterOperateInFlight,
+    /// the request gets lost and the application calls reset_address(same address) on the
+    /// addressed peripheral before the time-out is reported
+    ResetInFlight,
 }
 
 #[derive(Clone, Debug, PartialEq, Eq, Hash)]
@@ -379,10 +382,13 @@ pub enum UserAct {
     /// the application asserts the Operate state again (the documented way to force a global
     /// control broadcast); must not disturb the cycle
     EnterOperate,
+    /// Peripheral::reset_address() with the address the peripheral already has, between message
+    /// cycles: the documented way to ask for a fresh parameterisation
+    ResetAddress(usize),
 }
 
 pub fn gen_act(t: &mut Tape, rich: bool) -> Act {
-    match t.weighted(&[10, 3, 3, 4, 1, 1, 2, 1, 1, 1]) {
+    match t.weighted(&[10, 3, 3, 4, 1, 1, 2, 1, 1, 1, 1]) {
         0 => Act::Ok,
         1 => Act::RequestLost,
         2 => Act::ReplyLost,
@@ -408,7 +414,8 @@ pub fn gen_act(t: &mut Tape, rich: bool) -> Act {
         6 => Act::UserDiagInFlight,
         7 => Act::SlaveDiagPending,
         8 => Act::SlaveTransient(t.below(4) as u8),
-        _ => Act::EnterOperateInFlight,
+        9 => Act::EnterOperateInFlight,
+        _ => Act::ResetInFlight,
     }
 }
 
@@ -641,6 +648,14 @@ impl DpRig {
             UserAct::EnterOperate => {
                 self.master.enter_operate();
             }
+            UserAct::ResetAddress(k) => {
+                if let Some(h) = self.handle_of(*k) {
+                    let a = self.cfg.pers[*k].addr;
+                    self.master.get_mut(h).reset_address(a);
+                } else {
+                    return Ok(());
+                }
+            }
             UserAct::AddPending => {
                 if let Some(k) = (0..self.cfg.pers.len()).find(|k| self.handle_of(*k).is_none()) {
                     let can = match self.cfg.fixed_slots {
@@ -757,6 +772,13 @@ impl DpRig {
                 reply = self.slaves[k].handle(&req);
                 self.master.enter_operate();
             }
+            Act::ResetInFlight => {
+                let h = self.handle_of(k).unwrap();
+                self.master.get_mut(h).reset_address(addr);
+                for o in oracles.iter_mut() {
+                    o.on_user(&mut self.view(), &UserAct::ResetAddress(k))?;
+                }
+            }
             Act::UserDiagInFlight => {
                 reply = self.slaves[k].handle(&req);
                 let h = self.handle_of(k).unwrap();
@@ -845,11 +867,12 @@ pub fn gen_history(t: &mut Tape, cfg: &DpCfg, max_fault_rounds: usize, rich: boo
     let np = cfg.pers.len().max(1);
     let mut acts = vec![];
     for _ in 0..n {
-        let user = match t.weighted(&[8, 3, 1, 1, 1]) {
+        let user = match t.weighted(&[8, 3, 1, 1, 1, 1]) {
             1 => UserAct::WriteOutputs(t.below(np as u64) as usize, t.u8()),
             2 => UserAct::RequestDiag(t.below(np as u64) as usize),
             3 => UserAct::AddPending,
             4 => UserAct::EnterOperate,
+            5 => UserAct::ResetAddress(t.below(np as u64) as usize),
             _ => UserAct::None,
         };
         let act = gen_act(t, rich);
